@@ -9,8 +9,7 @@ breaks the build until the model (and this table) is revisited.
 
 Tags: `.act s` = the atomic action `s` of `Model/Handoff.lean`; `.call` = transfers control to another listed
 function or to the task/callback (no shared effect of its own); `.loc` = thread-local, immutable configuration, or an
-object no other thread can see yet; `.nm` = not modelled here (timers, priorities < 1, quit, the direct branch of
-`schedule` taken on the scheduler thread — C06's territory); `.lk` = the cooperative `Lock`, modelled in
+object no other thread can see yet; `.nm` = not modelled here (timers, priorities < 1, quit — C06's territory); `.lk` = the cooperative `Lock`, modelled in
 `Model/CoopLock.lean`; `.pg` = the pipe pinger, modelled as the byte counters `hubPipe` / `cltPipe`. -/
 namespace Pox.HandoffSites
 open Pox.Handoff
@@ -39,10 +38,10 @@ def table : List (String × List (String × Tag)) := [
       ("return s", .loc)]),
   ("recoco.Scheduler.schedule", [
       ("if threading.current_thread() is self._thread:", .loc),
-      ("if task in self._ready:", .nm),
-      ("return False", .nm),
-      ("self.fast_schedule(task, first)", .nm),
-      ("return True", .nm),
+      ("if task in self._ready:", .act .sch_contains),
+      ("return False", .call),
+      ("self.fast_schedule(task, first)", .call),
+      ("return True", .call),
       ("st = ScheduleTask(self, task)", .act .sch_spawn),
       ("st.start(fast=True)", .call)]),
   ("recoco.Scheduler.fast_schedule", [
@@ -210,7 +209,7 @@ def harnessSites : List Site := [.f_begin, .user_body]
 def allSites : List Site :=
   [.f_begin, .cl_lock, .cl_isNone, .cl_create, .cl_unlock, .clt_append, .clt_ping, .sch_spawn, .fs_assert, .fs_append,
    .fs_appendleft, .bi_set, .cy_ping, .se_create, .se_acqIn, .sx_relOut, .run_len, .idle_wait, .idle_clear, .cyc_pop,
-   .cyc_append, .user_body, .st_contains, .sy_relIn, .sy_acqOut, .rs_put, .clt_pong, .clt_pop, .clt_call, .sel_select,
+   .cyc_append, .user_body, .st_contains, .sch_contains, .sy_relIn, .sy_acqOut, .rs_put, .clt_pong, .clt_pop, .clt_call, .sel_select,
    .sel_pong, .sel_empty, .sel_get]
 
 end Pox.HandoffSites
